@@ -29,6 +29,25 @@ type Environment struct {
 	function  *Function
 	registers [NumRegisters]int64
 	numReg    int
+	// generation counts the redefinitions and deletions of global functions and constants, the 2 kinds of
+	// globals memoized calls are allowed to depend on.
+	generation int64
+}
+
+// Generation changes each time a global function or constant is redefined or deleted: results memoized
+// before that may depend on the previous definition.
+func (e *Environment) Generation() int64 {
+	return e.generation
+}
+
+// called before a binding is replaced or removed.
+func (e *Environment) changing(name string) {
+	if e.depth != 0 {
+		return
+	}
+	if old, ok := e.store[name]; ok && (Constant(name) || old.Type() == FUNC) {
+		e.generation++
+	}
 }
 
 // Truly empty store suitable for macros storage.
@@ -273,6 +292,7 @@ func (e *Environment) Delete(name string) Object {
 		e.numSet++
 	}
 	if _, ok := e.store[name]; ok {
+		e.changing(name)
 		delete(e.store, name)
 		log.Debugf("Delete(%s) found at %d %v", name, e.depth, e.cacheKey)
 		return TRUE
@@ -340,6 +360,7 @@ func (e *Environment) create(name string, val Object) Object {
 		record(e.ids, name, val.Type())
 	}
 	val = Value(val)
+	e.changing(name)
 	e.store[name] = val
 	return val
 }
@@ -355,6 +376,7 @@ func (e *Environment) update(name string, found, val Object) Object {
 		e = rr.RefEnv
 		name = rr.Name
 	}
+	e.changing(name)
 	e.store[name] = val
 	if e.depth == 0 {
 		e.numSet++
@@ -376,6 +398,7 @@ func (e *Environment) SetNoChecks(name string, val Object, create bool) Object {
 	// New name... let's see if it's really new or making it a ref.
 	if ref, ok := e.makeRef(name); ok {
 		log.Debugf("SetNoChecks(%s) created ref %s in %d", name, ref.Name, ref.RefEnv.depth)
+		ref.RefEnv.changing(ref.Name)
 		ref.RefEnv.store[ref.Name] = Value(val) // kinda neat to make aliases but it can create loops, so not for now.
 		return val
 	}
